@@ -27,6 +27,7 @@ LEVEL_TEXT = (
     "Each relation compares two log-likelihoods computed by the real code on a transformed problem; no oracle model is "
     "needed, so 61-state codon and 20-state protein models are covered at full size. Sampled over problems; every "
     "internal node is tried as the new root for each reversible problem."
+    " Problems are drawn under every expm setting."
 )
 LEVEL_NOTE = "trusted: the harness's own tree surgery (nested lists); tolerance rtol 1e-9 (1e-6 for >16 states)"
 TECHNIQUE = "runtime monitoring: relational (metamorphic) monitor over pairs of real executions"
